@@ -41,7 +41,7 @@ func (x *Exec) resolveCallee(fr *Frame, st *State, c *ssa.CallCommon) (key strin
 // the function under verification (direct calls in its own body only).
 func (x *Exec) call(fr *Frame, st *State, ci ssa.CallInstruction) []string {
 	res := x.callInner(fr, st, ci)
-	if fr.depth == 0 && fr.contract != nil && len(fr.contract.OnCall) > 0 {
+	if hc := x.hookContract(fr); hc != nil && len(hc.OnCall) > 0 {
 		name := calleeShortName(ci.Common())
 		if name == "" {
 			if vn := dynCallName(ci.Common()); strings.HasPrefix(vn, "var:") {
@@ -55,7 +55,7 @@ func (x *Exec) call(fr *Frame, st *State, ci ssa.CallInstruction) []string {
 		if name == "" {
 			name, idxVal = elemCallName(ci.Common())
 		}
-		if effs, ok := fr.contract.OnCall[name]; ok && name != "" {
+		if effs, ok := hc.OnCall[name]; ok && name != "" {
 			bind := map[string]specVal{}
 			if idxVal != nil {
 				bind["idx"] = specVal{term: x.val(fr, st, idxVal), typ: tInt}
@@ -82,6 +82,48 @@ func (x *Exec) call(fr *Frame, st *State, ci ssa.CallInstruction) []string {
 		}
 	}
 	return res
+}
+
+// hookContract: the contract whose statement hooks (on-call, on-recv, ...) apply to the
+// instructions of this frame: the contract of the function under verification for its own body,
+// and for a closure that is lexically part of the function under verification and was inlined
+// into it, the closure's own contract (its hooks speak about the closure's variables).
+func (x *Exec) hookContract(fr *Frame) *FuncContract {
+	if fr.depth == 0 {
+		return fr.contract
+	}
+	if x.top == nil || fr.fn.Parent() == nil {
+		return nil
+	}
+	for f := fr.fn.Parent(); f != nil; f = f.Parent() {
+		if f == x.top {
+			if fc, ok := x.db.Funcs[fr.fn.String()]; ok {
+				return fc
+			}
+			return nil
+		}
+	}
+	return nil
+}
+
+// hookGhosts: every ghost assigned by a statement hook of the contract of fn or of a closure
+// nested in fn.
+func (x *Exec) hookGhosts(fn *ssa.Function, out map[string]bool) {
+	if fc, ok := x.db.Funcs[fn.String()]; ok {
+		for _, m := range []map[string][]*EffectSpec{fc.OnCall, fc.OnRecv, fc.OnSend, fc.OnDefer} {
+			for _, effs := range m {
+				for _, ef := range effs {
+					out["G|"+ef.Ghost] = true
+				}
+			}
+		}
+		for _, ef := range fc.OnGo {
+			out["G|"+ef.Ghost] = true
+		}
+	}
+	for _, af := range fn.AnonFuncs {
+		x.hookGhosts(af, out)
+	}
 }
 
 // calleeShortName: the bare function or method name a call instruction names ("" for calls
